@@ -430,6 +430,16 @@ class SymArr:
         raise Und(f"index {i} into symbolic table {self.name}")
 
 
+class ElemArr(SymArr):
+    """Elementwise combination of symbolic tables (and scalars): (A op B)[i] = A[i] op B[i]."""
+
+    def __init__(self, fn, what):
+        self.fn, self.name, self.step, self.var = fn, what, None, "b"
+
+    def index(self, i):
+        return self.fn(i)
+
+
 class ObjV:
     def __init__(self, cls, attrs=None):
         self.cls = cls
@@ -548,6 +558,11 @@ class Evaluator:
         b = self.ev(e.right, env, ctx)
         if isinstance(a, StrV) and isinstance(b, StrV) and isinstance(e.op, ast.Add):
             return StrV(a.s + b.s)
+        if (isinstance(a, SymArr) or isinstance(b, SymArr)) and isinstance(e.op, (ast.Add, ast.Sub, ast.Mult)):
+            if all(isinstance(x, (SymArr, PW, Rat)) for x in (a, b)):
+                at = lambda x, i: x.index(i) if isinstance(x, SymArr) else rat_of(x)
+                op = {ast.Add: lambda x, y: x + y, ast.Sub: lambda x, y: x - y, ast.Mult: lambda x, y: x * y}[type(e.op)]
+                return ElemArr(lambda i, a=a, b=b: op(at(a, i), at(b, i)), ast.unparse(e))
         a, b = as_pw(a), as_pw(b)
         if isinstance(e.op, ast.Add):
             return pw_bin(a, b, lambda x, y: x + y)
